@@ -181,6 +181,9 @@ theorem hash1_perm_needs_distinct :
 /-- `summary_injective_sets` is not vacuous: a one-file set produces a summary (with `sha := id`) -/
 example : summaryPairs id [([97], [255])] = .ok [102, 102, 32, 32, 97, 10] := by decide
 
+/-- the collision-freedom hypothesis of `summary_injective_sets` is satisfiable -/
+example : Function.Injective (id : Bytes → Bytes) := fun _ _ h => h
+
 /-- `newline_rejected_err` on a concrete list -/
 example : hash1 id [[97], [97, 10, 98]] (fun _ => some []) = .error .newline := by decide
 
